@@ -428,6 +428,31 @@ def run(ctx):
                         j = camp.sh.add(opq("entry"), {"op": "build", "events": [], "res": {"ok": ok, "v": V.VBytes(val) if ok else V.VNone(), "err": err, "p": 0, "path": []}}, kw, b"", 0, V.enc(v), None, "entry")
                         camp.sh.session("C17.entry", [i0, j])
                 camp.sh.maybe_flush()
+            # ... and builds that go back into what is already written (a header slot filled in through a Pointer, with a digest over it): the same bytes
+            # whether the target is the bytes returned by build(), a caller's BytesIO or a file
+            if rnd == 0:
+                import zlib
+                for hdr, hv in ((cs.Int16ub, 0x0102), (cs.Struct("a" / cs.Byte, "b" / cs.Byte), {"a": 3, "b": 4})):
+                    fmt = cs.Struct("at" / cs.Tell, cs.Padding(2), "body" / cs.Bytes(3), "hdr" / cs.Pointer(cs.this.at, cs.RawCopy(hdr)),
+                                    "chk" / cs.Checksum(cs.Int32ub, lambda d: zlib.crc32(d) & 0xffffffff, cs.this.hdr.data), "trailer" / cs.Const(b"END"))
+                    v = {"body": b"abc", "hdr": {"value": hv}}
+                    outs = []
+                    for how in ("build", "stream", "file", "stream-prefilled"):
+                        def run():
+                            if how == "build":
+                                return fmt.build(v)
+                            if how == "stream":
+                                st = io.BytesIO(); fmt.build_stream(v, st); return st.getvalue()
+                            if how == "stream-prefilled":
+                                st = io.BytesIO(b"\x99" * 16); fmt.build_stream(v, st); return st.getvalue()[:st.tell()]
+                            fn = os.path.join(tmpdir, "out2.bin")
+                            fmt.build_file(v, fn)
+                            return open(fn, "rb").read()
+                        ok, val, err = tracer._outcome(run)
+                        outs.append(camp.sh.add(opq("entry:" + how), {"op": "build", "events": [], "res": {"ok": ok, "v": V.VBytes(val) if ok else V.VNone(), "err": err, "p": 0, "path": []}}, {}, b"", 0, V.VNone(), None, "entry"))
+                    for j in outs[1:]:
+                        camp.sh.session("C17.entry", [outs[0], j])
+                    nt += 1
         vs = camp.validate()
         campaign.judge(ctx, camp, vs, conformance=None, clauses=CLAUSES)
         ctx.cov["distinct_nontrivial"] = nt
